@@ -35,6 +35,7 @@ Fold(evs, i, st) ==
        IN CASE e.kind = "Start" -> Fold(evs, i + 1, Append(st, OpenNode(e.name, e.attrs)))
             [] e.kind = "Empty" -> Fold(evs, i + 1, AddItem(st, El(e.name, e.attrs, <<>>, "empty")))
             [] e.kind \in {"Text", "CData"} -> Fold(evs, i + 1, AddItem(st, TextD(~e.ws)))
+            [] e.kind = "PI" -> Fold(evs, i + 1, AddItem(st, [kind |-> "pi"]))
             [] e.kind \in {"End", "Eof"} -> Fold(evs, i + 1, IF Len(st) > 1 THEN CloseTop(st) ELSE st)
             [] OTHER -> Fold(evs, i + 1, st)
 DocRoots(evs) == Elems(Fold(evs, 1, <<OpenNode(<<>>, <<>>)>>)[1].items)
